@@ -29,8 +29,33 @@ open Rc
 
 /-! ### parse_frame -/
 
+/-! ### the literals of `Connection::parse_frame` (session.rs) and `read_message` (message/mod.rs)
+
+Named so that `Rc.Thm.C09.model_constants_agree` can tie THESE names - the ones the model functions below use - to
+`Rc/Gen/Constants.lean`, which the pre step of `./check C09` regenerates from the source.  Editing a value here
+or a literal in the source breaks that theorem.  They are scoped NOTATIONS for numerals, not `abbrev`s: `omega`
+treats a reducible constant as an opaque atom, a notation elaborates to the numeral itself, so every proof about
+`parseFrame` / `readMessage` sees literals while the source of the model has one place per value. -/
+
+/-- `buf.set_position(16)` / `[buf[16], buf[17]]`: offset of the 2-octet length field (after the marker) -/
+scoped notation "LEN_OFF" => (16 : Nat)
+/-- `buf.remaining() >= 16 + 2` of `parse_frame`: marker + length -/
+scoped notation "PF_PEEK" => (18 : Nat)
+/-- `if len < 19 { return Err(..) }` of `parse_frame` (repair F12) -/
+scoped notation "PF_MIN" => (19 : Nat)
+/-- `(len as usize) - 18` of `parse_frame` -/
+scoped notation "PF_SUB" => (18 : Nat)
+/-- `read_exact(&mut buf[..18])` of `read_message`: octets read before the length is looked at -/
+scoped notation "RM_FIRST" => (18 : Nat)
+/-- `if len < 19` of `read_message` (repair F11) -/
+scoped notation "RM_MIN" => (19 : Nat)
+/-- `if len > 4096` of `read_message` (repair F11) -/
+scoped notation "RM_MAX" => (4096 : Nat)
+/-- `buf: &mut [u8; 4096]` of `read_message`: the length every caller's buffer has -/
+scoped notation "RM_BUF" => (4096 : Nat)
+
 /-- `buf.set_position(16); buf.get_u16()` on a buffer that holds at least 18 bytes. -/
-def lenField (buf : Bytes) : Nat := (buf.getD 16 0).toNat * 256 + (buf.getD 17 0).toNat
+def lenField (buf : Bytes) : Nat := (buf.getD LEN_OFF 0).toNat * 256 + (buf.getD (LEN_OFF + 1) 0).toNat
 
 /-- `a - b` on `usize` with overflow checks on (test profile): `none` is the panic
 "attempt to subtract with overflow". -/
@@ -45,15 +70,15 @@ Result: `ok none` = need more bytes, `ok (some (frame, rest))` = one frame cut, 
 buffer after `self.buffer.advance(len)`, `err` = `Err(ParseError)`. -/
 def parseFrame {μ : Type} (dec : Bytes → Outcome μ) (buf : Bytes) :
     Outcome (Option (Frame μ × Bytes)) :=
-  if buf.length < 18 then .ok none                 -- `if buf.remaining() >= 16 + 2`
+  if buf.length < PF_PEEK then .ok none            -- `if buf.remaining() >= 16 + 2`
   else
     let len := lenField buf
-    if len < 19 then .err                          -- fix F12: `if len < 19 { return Err(..) }`
+    if len < PF_MIN then .err                      -- fix F12: `if len < 19 { return Err(..) }`
     else
-      match checkedSub len 18 with                 -- `(len as usize) - 18`
+      match checkedSub len PF_SUB with             -- `(len as usize) - 18`
       | none => .panic
       | some need =>
-        if need ≤ buf.length - 18 then             -- `buf.remaining() >= need` (position is 18)
+        if need ≤ buf.length - PF_PEEK then        -- `buf.remaining() >= need` (position is 18)
           match takeN len buf with                 -- `&buf.into_inner()[..len.into()]`
           | none => .panic
           | some (frame, rest) =>
@@ -196,17 +221,17 @@ def readExact (r : Reader) (buf : Bytes) (off n : Nat) : Bool × Reader × Bytes
 `[u8; 4096]`. Result: `ok none` = `Ok(None)` (EOF inside the first 18 bytes),
 `ok (some frame)` = `Ok(Some(&buf[..len]))`, `err` = `Err(_)`; plus reader and buffer after. -/
 def readMessage (r : Reader) (buf : Bytes) : Outcome (Option Bytes) × Reader × Bytes :=
-  if buf.length < 18 then (.panic, r, buf)         -- `&mut buf[..18]` (never: the type is [u8; 4096])
+  if buf.length < RM_FIRST then (.panic, r, buf)   -- `&mut buf[..18]` (never: the type is [u8; 4096])
   else
-    let (ok1, r1, b1) := readExact r buf 0 18
+    let (ok1, r1, b1) := readExact r buf 0 RM_FIRST
     if !ok1 then (.ok none, r1, b1)                -- UnexpectedEof => Ok(None)
     else
       let len := lenField b1                       -- u16::from_be_bytes([buf[16], buf[17]])
-      if len < 19 then (.err, r1, b1)              -- fix F11
-      else if len > 4096 then (.err, r1, b1)       -- fix F11
-      else if ¬ (18 ≤ len ∧ len ≤ b1.length) then (.panic, r1, b1)   -- `&mut buf[18..len]`
+      if len < RM_MIN then (.err, r1, b1)          -- fix F11
+      else if len > RM_MAX then (.err, r1, b1)     -- fix F11
+      else if ¬ (RM_FIRST ≤ len ∧ len ≤ b1.length) then (.panic, r1, b1)   -- `&mut buf[18..len]`
       else
-        let (_, r2, b2) := readExact r1 b1 18 (len - 18)   -- `let _ = bytes.read_exact(..)`
+        let (_, r2, b2) := readExact r1 b1 RM_FIRST (len - RM_FIRST)   -- `let _ = bytes.read_exact(..)`
         (.ok (some (b2.take len)), r2, b2)         -- `Ok(Some(&buf[..len]))`
 
 /-- repeated `read_message` on one reader and one buffer, at most `n` calls (driver) -/
